@@ -31,13 +31,14 @@ HCall(e) ==
   ELSE IF e.api \in {"search", "lsearch", "gai", "ghbn", "ghba", "gni"} THEN Stop
   ELSE cnow' = e.now /\ UNCHANGED <<ccfg, cache, cq, csrv, xv>> /\ Acc
 
-RECURSIVE NoteFrames(_, _, _, _, _)
-NoteFrames(qq, frames, i, tcp, fd) ==
+RECURSIVE NoteFrames(_, _, _, _, _, _, _)
+NoteFrames(qq, frames, i, tcp, fd, sv, prb) ==
   IF i > Len(frames) THEN qq
   ELSE LET f == frames[i]
-           rec == [key |-> Key(f.kname, f.qt, f.rd, f.cd), lname |-> f.lname, name |-> f.name, qt |-> f.qt, tcp |-> tcp, fd |-> fd, pend |-> IF f.qid \in DOMAIN qq THEN qq[f.qid].pend ELSE <<>>]
-       IN IF f.bad = 1 THEN NoteFrames(qq, frames, i + 1, tcp, fd)
-          ELSE NoteFrames(IF f.qid \in DOMAIN qq THEN [qq EXCEPT ![f.qid] = rec] ELSE qq @@ (f.qid :> rec), frames, i + 1, tcp, fd)
+           rec == [key |-> Key(f.kname, f.qt, f.rd, f.cd), lname |-> f.lname, name |-> f.name, qt |-> f.qt, tcp |-> tcp, fd |-> fd, pend |-> IF f.qid \in DOMAIN qq THEN qq[f.qid].pend ELSE <<>>,
+                   srv |-> sv, probe |-> IF f.qid \in DOMAIN qq THEN qq[f.qid].probe ELSE prb]
+       IN IF f.bad = 1 THEN NoteFrames(qq, frames, i + 1, tcp, fd, sv, prb)
+          ELSE NoteFrames(IF f.qid \in DOMAIN qq THEN [qq EXCEPT ![f.qid] = rec] ELSE qq @@ (f.qid :> rec), frames, i + 1, tcp, fd, sv, prb)
 
 MarkSent == cur' = [i \in 1..Len(cur) |-> IF i = Len(cur) THEN [cur[i] EXCEPT !.sent = TRUE] ELSE cur[i]]
 
@@ -49,7 +50,10 @@ Matches(p) == /\ p.parse = 1 /\ p.qid \in DOMAIN cq /\ p.fd = cq[p.qid].fd
 
 HSk(e) ==
   CASE e.op = "send" /\ Len(e.frames) > 0 ->
-         /\ cq' = IF e.res = "ok" THEN NoteFrames(cq, e.frames, 1, e.tcp = 1, e.fd) ELSE cq
+         /\ cq' = IF e.res = "ok" THEN NoteFrames(cq, e.frames, 1, e.tcp = 1, e.fd, e.srv,
+                                                  \* a new query id that is not the first transmission of the request call in progress is
+                                                  \* a probe copy to a failed server: it completes silently (no callback)
+                                                  Len(cur) = 0 \/ cur[Len(cur)].sent) ELSE cq
          /\ (IF Len(cur) > 0 THEN MarkSent ELSE UNCHANGED cur)
          /\ UNCHANGED <<ccfg, cnow, cache, csrv, creq>> /\ Acc
     [] e.op = "recv" /\ e.res = "ok" /\ "pid" \in DOMAIN e ->
@@ -89,6 +93,18 @@ HCbb(e) ==
   ELSE IF ~TtlsSound(k, e.ttls) THEN Rej("c08.ttl_not_reduced_by_time_cached." \o creq[e.t].api)
   ELSE Skip
 
+(* a probe copy has no callback: its accepted answer is witnessed by the success notification of its server *)
+HSrvOk(e) ==
+  LET cand == {id \in DOMAIN cq : cq[id].probe /\ cq[id].pend # <<>> /\ cq[id].srv = e.s} IN
+  IF e.ok = 1 /\ cand # {} THEN
+       LET id == CHOOSE x \in cand : TRUE
+           ent == cq[id].pend[1]
+           kk == cq[id].key
+       IN /\ cache' = (IF kk \in DOMAIN cache THEN [cache EXCEPT ![kk] = ent] ELSE cache @@ (kk :> ent))
+          /\ cq' = Without(cq, {id})
+          /\ UNCHANGED <<ccfg, cnow, csrv, xv>> /\ Acc
+  ELSE Skip
+
 HRet(e) ==
   IF "t" \in DOMAIN e /\ Len(cur) > 0 /\ cur[Len(cur)].t = e.t
   THEN cur' = SubSeq(cur, 1, Len(cur) - 1) /\ UNCHANGED <<cvars, creq>> /\ Acc
@@ -100,6 +116,7 @@ Handle(e) ==
     [] e.e = "adv" -> cnow' = e.now /\ UNCHANGED <<ccfg, cache, cq, csrv, xv>> /\ Acc
     [] e.e = "sk" -> HSk(e)
     [] e.e = "cbb" -> HCbb(e)
+    [] e.e = "srv" -> HSrvOk(e)
     [] e.e = "ret" -> HRet(e)
     [] e.e = "crash" -> Stop
     [] OTHER -> Skip
